@@ -4,7 +4,7 @@ package c02
 // kinds, bare or with siblings before and behind the entry that continues the
 // descent.  A value that deep cannot be logged as nested JSON (TLC's JSON reader
 // stops at 255 levels of brackets) and TLC's recursive operators slow down with the
-// depth, so it is logged by its SPINE (ValueCodec!Spine): one record per level,
+// depth, so it is logged by its SPINE (ValueSpine!Spine): one record per level,
 // outermost first.  The object read back is walked down the same positions with the
 // public getters.  Events RTs (the spine is expanded to the value and judged like any
 // other value; depth <= a few hundred) and RTd (judged level by level; any depth).
@@ -132,7 +132,7 @@ func projEntries(n *valgen.Node, from, to int) []interface{} {
 	return out
 }
 
-// spineOf: the shape in the notation of ValueCodec!Spine.
+// spineOf: the shape in the notation of ValueSpine!Spine.
 func spineOf(n *valgen.Node, pos []int) (sp []interface{}, inner interface{}) {
 	sp = []interface{}{}
 	for _, p := range pos {
